@@ -19,7 +19,7 @@ tvars == <<tid, l, s>>
 
 Tr == Traces[tid]
 
-CfgOf(c) == [cd |-> c.cdt, wg |-> c.wgt, obeyset |-> {TRUE, FALSE},
+CfgOf(c) == [cd |-> c.cdt, wg |-> c.wgt, obeyset |-> {TRUE, FALSE}, eom |-> c.eom,
              ws |-> [i \in 1..Len(c.ws) |->
                        [n |-> c.ws[i].n, ln |-> c.ws[i].ln, np |-> c.ws[i].np, G |-> c.ws[i].Gp, W |-> c.ws[i].Wt, sing |-> c.ws[i].sing,
                         resp |-> c.ws[i].resp, auto |-> c.ws[i].auto, prio |-> c.ws[i].prio, ssig |-> c.ws[i].ssig,
@@ -100,7 +100,7 @@ ReqOf(ln) == [cmd |-> ln.q.cmd, name |-> ln.q.name, lname |-> ln.q.lname, hasnam
               addG |-> ln.q.addGp, addW |-> ln.q.addWt, addsing |-> ln.q.addsing, nopts |-> ln.q.nopts, pattern |-> ln.q.pattern,
               opts |-> ln.q.opts, matches |-> ln.q.matches, file |-> FileOf(ln.q),
               plan |-> IF ln.q.cmd = "reloadconfig" THEN PlanOf(l + 1) ELSE [chg |-> <<>>, del |-> <<>>, add |-> <<>>],
-              rovalid |-> ln.q.rovalid]
+              rovalid |-> ln.q.rovalid, adduid |-> ln.q.adduid]
 
 Tk(ms) == (ms + 50) \div 100
 
